@@ -102,7 +102,8 @@ fn trace_of(sh: &Shared) -> String {
 }
 
 /// line: `<id> <g:<sig>:<ms>|abort> <advance_ms> <behs~op;op/behs~op;op/...>`
-async fn run_case(manner: String, advance: u64, jobs_spec: Vec<(Vec<Beh>, Vec<String>)>) -> String {
+/// a job spec starting with `+` is created and started INSIDE the action that requests the quit
+async fn run_case(manner: String, advance: u64, jobs_spec: Vec<(Vec<Beh>, Vec<String>)>, late: Vec<bool>) -> String {
     use watchexec::{Config, Watchexec};
     use watchexec_events::{Event, Priority};
     let t0 = Instant::now();
@@ -111,16 +112,26 @@ async fn run_case(manner: String, advance: u64, jobs_spec: Vec<(Vec<Beh>, Vec<St
     let phase = Arc::new(std::sync::atomic::AtomicUsize::new(0));
     let config = Config::default();
     config.throttle(Duration::ZERO);
-    config.on_action({ let shared = shared.clone(); let handles = handles.clone(); let phase = phase.clone(); let manner = manner.clone(); move |mut action| {
+    let late_handles: Arc<Mutex<Vec<Job>>> = Default::default();
+    let nearly = late.iter().filter(|l| !**l).count();
+    config.on_action({ let shared = shared.clone(); let handles = handles.clone(); let late_handles = late_handles.clone(); let late = late.clone(); let phase = phase.clone(); let manner = manner.clone(); move |mut action| {
         match phase.fetch_add(1, std::sync::atomic::Ordering::SeqCst) {
-            0 => { for sh in &shared {
+            0 => { for (sh, _) in shared.iter().zip(late.iter()).filter(|(_, l)| !**l) {
                     let cmd = Arc::new(Command { program: Program::Exec { prog: "true".into(), args: vec![] }, options: Default::default() });
                     let (_id, job) = action.create_job(cmd);
                     let sh2 = sh.clone();
                     job.set_spawn_hook(move |c, _| { sh2.log("hook".into()); c.wrap(SimWrapper(sh2.clone())); });
                     handles.lock().unwrap().push(job);
                 } }
-            1 => { let p: Vec<&str> = manner.split(':').collect();
+            1 => { for (sh, _) in shared.iter().zip(late.iter()).filter(|(_, l)| **l) {
+                    let cmd = Arc::new(Command { program: Program::Exec { prog: "true".into(), args: vec![] }, options: Default::default() });
+                    let (_id, job) = action.create_job(cmd);
+                    let sh2 = sh.clone();
+                    job.set_spawn_hook(move |c, _| { sh2.log("hook".into()); c.wrap(SimWrapper(sh2.clone())); });
+                    job.start();
+                    late_handles.lock().unwrap().push(job);
+                }
+                let p: Vec<&str> = manner.split(':').collect();
                    if p[0] == "abort" { action.quit(); } else { action.quit_gracefully(Signal::from(p[1].parse::<i32>().unwrap()), Duration::from_millis(p[2].parse().unwrap())); } }
             _ => {}
         }
@@ -130,11 +141,13 @@ async fn run_case(manner: String, advance: u64, jobs_spec: Vec<(Vec<Beh>, Vec<St
     wx.send_event(Event::default(), Priority::Urgent).await.unwrap();
     settle().await;
     let jobs: Vec<Job> = handles.lock().unwrap().clone();
-    if jobs.len() != jobs_spec.len() { return format!("setup-failed:{}", jobs.len()); }
-    for (ji, (_, ops)) in jobs_spec.iter().enumerate() {
+    if jobs.len() != nearly { return format!("setup-failed:{}", jobs.len()); }
+    let early_idx: Vec<usize> = (0..jobs_spec.len()).filter(|i| !late[*i]).collect();
+    for (k, ji) in early_idx.iter().enumerate() {
+        let ji = *ji; let ops = &jobs_spec[ji].1;
         for op in ops {
             let parts: Vec<&str> = op.split(':').collect();
-            match parts[0] { "y" => settle().await, "n" | "s" => { if api(&jobs[ji], &parts[1..], &shared[ji]).is_none() { return "bad-op".into(); } }, "" => {}, _ => return "bad-op".into() }
+            match parts[0] { "y" => settle().await, "n" | "s" => { if api(&jobs[k], &parts[1..], &shared[ji]).is_none() { return "bad-op".into(); } }, "" => {}, _ => return "bad-op".into() }
         }
         settle().await;
     }
@@ -157,11 +170,12 @@ fn main() {
     for line in stdin.lock().lines() {
         let line = line.unwrap(); let f: Vec<&str> = line.split(' ').collect();
         if f.len() != 4 { writeln!(o, "bad-line").unwrap(); continue; }
-        let jobs: Vec<(Vec<Beh>, Vec<String>)> = f[3].split('/').map(|j| { let (b, ops) = j.split_once('~').unwrap();
+        let late: Vec<bool> = f[3].split('/').map(|j| j.starts_with('+')).collect();
+        let jobs: Vec<(Vec<Beh>, Vec<String>)> = f[3].split('/').map(|j| { let (b, ops) = j.trim_start_matches('+').split_once('~').unwrap();
             (b.split(',').map(|b| match b.as_bytes()[0] { b'E' => Beh::ExitsAfter(b[1..].parse().unwrap()), b'S' => Beh::ExitsAfterSignal(b[1..].parse().unwrap()), b'F' => Beh::SpawnFails, _ => Beh::Ignores }).collect(),
              ops.split(';').map(|s| s.to_string()).collect()) }).collect();
         let rt = tokio::runtime::Builder::new_current_thread().enable_all().start_paused(true).build().unwrap();
-        let res = rt.block_on(run_case(f[1].to_string(), f[2].parse().unwrap(), jobs));
+        let res = rt.block_on(run_case(f[1].to_string(), f[2].parse().unwrap(), jobs, late));
         rt.shutdown_background();
         writeln!(o, "{} {}", f[0], res).unwrap();
     }
